@@ -12,6 +12,7 @@ import (
 	"fmt"
 	"io"
 	"sync"
+	"sync/atomic"
 	"time"
 
 	"github.com/lightninglabs/lightning-node-connect/hashmailrpc"
@@ -44,11 +45,11 @@ type Fate struct {
 }
 
 type stream struct {
-	id       string
-	q        [][]byte
-	notify   chan struct{}
-	reader   *recvStream
-	writer   *sendStream
+	id     string
+	q      [][]byte
+	notify chan struct{}
+	reader *recvStream
+	writer *sendStream
 }
 
 // Relay is the fake hashmail server.
@@ -68,7 +69,18 @@ type Relay struct {
 	// Leak, if set, inspects every message the relay sees and reports
 	// whether it contains something that should never be visible to it.
 	Leak func(msg []byte) bool
+	// slowClose: how long CloseSend on a receive stream takes (nanoseconds;
+	// a half-close that has to wait for the transport).
+	slowClose     atomic.Int64
+	slowSendClose atomic.Int64
 }
+
+// SetSlowSendClose makes every later CloseSend of a send stream take d (the
+// write end is released first, as when the half-close has to be flushed).
+func (r *Relay) SetSlowSendClose(d time.Duration) { r.slowSendClose.Store(int64(d)) }
+
+// SetSlowRecvClose makes every later CloseSend of a receive stream take d.
+func (r *Relay) SetSlowRecvClose(d time.Duration) { r.slowClose.Store(int64(d)) }
 
 // New creates a relay.
 func New() *Relay {
@@ -274,7 +286,12 @@ func (rs *recvStream) Recv() (*hashmailrpc.CipherBox, error) {
 // call whose request side was half-closed when it was opened; the relay
 // releases the read end only when the call's context ends (or the stream
 // breaks).
-func (rs *recvStream) CloseSend() error { return nil }
+func (rs *recvStream) CloseSend() error {
+	if d := time.Duration(rs.r.slowClose.Load()); d > 0 {
+		time.Sleep(d)
+	}
+	return nil
+}
 
 // ---- send side ------------------------------------------------------------
 
@@ -403,6 +420,9 @@ func (ws *sendStream) CloseSend() error {
 	}
 	ws.r.mu.Unlock()
 	ws.fail()
+	if d := time.Duration(ws.r.slowSendClose.Load()); d > 0 {
+		time.Sleep(d)
+	}
 	return nil
 }
 
